@@ -48,7 +48,8 @@ def search(ctx, factor):
 
 def run(ctx):
     ctx.search = search
-    ctx.trusted += ["header signature and entry identity as observed by the harness (first 87 columns of the rendered header; rendered entry + addenda without trace/sequence columns, sha256-abbreviated in the interchange)",
+    ctx.trusted += ["flatten-source analysis of the translator (translator/flatten.go: syntactic shapes of GetHeaderSignature, the sort.Slice comparators, canMerge, the candidate loop and Consume)",
+                    "header signature and entry identity as observed by the harness (first 87 columns of the rendered header; rendered entry + addenda without trace/sequence columns, sha256-abbreviated in the interchange)",
                     "the processing order for more than 12 batches is obtained by replaying sort.Slice on the entry counts (untrusted hint: the extracted checker flatten_hint re-validates it)"]
     ctx.assumptions += ["Batch.Create/File.Create/Validate of the consolidated batches is not modelled (validity of the result is checked by the oracle only; C05 owns Create)",
                         "inputs are files valid under default validation options (trace numbers strictly ascending inside a batch and prefixed by the header's ODFI)"]
